@@ -357,11 +357,14 @@ pub fn utf8_text(rng: &mut Rng, n: usize) -> Vec<u8> {
 }
 
 fn lattice_len(rng: &mut Rng, cap: usize) -> usize {
-    match rng.below(6) {
+    // block sizes that code handling keys, hashes, IVs and salts tends to compare against, and their neighbours
+    const BLOCKS: [usize; 15] = [15, 16, 17, 23, 24, 31, 32, 33, 47, 48, 49, 63, 64, 65, 80];
+    match rng.below(8) {
         0 => 0,
         1 => 1.min(cap),
         2 => cap.saturating_sub(1),
         3 => cap,
+        4 | 5 => (*rng.pick(&BLOCKS)).min(cap),
         _ => rng.usize_below(cap + 1),
     }
 }
@@ -370,7 +373,7 @@ fn lattice_uint(rng: &mut Rng, max: u64) -> u64 {
     let cands = [0u64, 1, 23, 24, 255, 256, 65535, 65536, max - 1, max];
     // most unsigned CTAP members are small enumerators (protocol versions 1/2, policies 1..3, flags)
     if rng.chance(1, 3) {
-        return 1 + rng.below(4);
+        return rng.below(11).min(max);
     }
     if rng.chance(2, 3) {
         let c = *rng.pick(&cands);
